@@ -64,6 +64,7 @@ fn trace_on() -> bool {
 struct Client {
     home: Vec<Lid>,
     stalled_until: usize,
+    last_op: Option<Op>,
 }
 
 /// judge one executed step for the property under check
@@ -282,7 +283,7 @@ pub fn run_one(cfg: &ForestCfg, run_index: u64, run_seed: u64, known: &KnownFile
     let mut w = World::new();
     let mut trace: Vec<TraceOp> = vec![];
     let mut log: Vec<(TraceOp, &'static str)> = vec![];
-    let mut clients: Vec<Client> = (0..prof.clients).map(|_| Client { home: vec![], stalled_until: 0 }).collect();
+    let mut clients: Vec<Client> = (0..prof.clients).map(|_| Client { home: vec![], stalled_until: 0, last_op: None }).collect();
     let mut sid: u32 = 0;
     let mut digest = Fnv::new();
     let mut effective = 0u32;
@@ -329,6 +330,9 @@ pub fn run_one(cfg: &ForestCfg, run_index: u64, run_seed: u64, known: &KnownFile
                 text: gen::gen_xml_text(&mut rng, fragment),
                 kind: if fragment { ParseKind::Fragment } else { ParseKind::Doc },
             }
+        } else if prof.repeat_pct > 0 && queued.is_empty() && clients[c].last_op.is_some() && rng.pct(prof.repeat_pct) {
+            stats.inc("probe/call_repeated_with_same_arguments");
+            clients[c].last_op.clone().unwrap()
         } else if let Some(op) = queued.pop_front() {
             stats.inc("probe/motif_calls");
             op
@@ -344,6 +348,9 @@ pub fn run_one(cfg: &ForestCfg, run_index: u64, run_seed: u64, known: &KnownFile
             }
         };
         sid += 1;
+        if !matches!(op, Op::Parse { .. }) {
+            clients[c].last_op = Some(op.clone());
+        }
         let t = TraceOp { sid, client: c as u8, op };
         let pre = w.clone();
         if trace_on() {
